@@ -26,8 +26,10 @@ EXPRS = {
     "globc": {"text": "@t[12]", "nodes": [["glob", 0, 0, "t"]], "root": 1},
     "not_globq": {"text": "not t?", "nodes": [["glob", 0, 0, "t"], ["not", 1, 0, ""]], "root": 2},
     # several --tags options (AND-ed as a whole), one of them with a top-level `or` between parenthesised parts
-    "parts": {"text": "(t1 and t2) or (wip)", "more": ["@t1"], "nodes": [["lit", 0, 0, "t1"], ["lit", 0, 0, "t2"], ["and", 1, 2, ""],
-                                                                       ["lit", 0, 0, "wip"], ["or", 3, 4, ""], ["and", 5, 1, ""]], "root": 6},
+    # (the second part must not already be implied by a branch of the first one: `... and android`)
+    "parts": {"text": "(t1 and t2) or (wip)", "more": ["@android"], "nodes": [["lit", 0, 0, "t1"], ["lit", 0, 0, "t2"], ["and", 1, 2, ""],
+                                                                            ["lit", 0, 0, "wip"], ["or", 3, 4, ""], ["lit", 0, 0, "android"],
+                                                                            ["and", 5, 6, ""]], "root": 7},
     "parts_v1": {"text": "t1,wip", "more": ["-t2"], "nodes": [["lit", 0, 0, "t1"], ["lit", 0, 0, "wip"], ["or", 1, 2, ""],
                                                              ["lit", 0, 0, "t2"], ["not", 4, 0, ""], ["and", 3, 5, ""]], "root": 6},
     "v1b": {"text": "android,t1", "nodes": [["lit", 0, 0, "android"], ["lit", 0, 0, "t1"], ["or", 1, 2, ""]], "root": 3},
